@@ -87,6 +87,40 @@ DEFAULTING = {"std::result::Result::unwrap_or", "std::result::Result::unwrap_or_
               "std::result::Result::ok", "std::result::Result::is_ok", "std::result::Result::is_err", "std::result::Result::unwrap", "std::result::Result::expect"}
 
 
+class _Tagged:
+    """ctx proxy that tags every instance key with the sibling instance of the rule loop it was judged in."""
+    def __init__(self, ctx, tag):
+        self._ctx, self._tag = ctx, tag
+
+    def __getattr__(self, name):
+        return getattr(self._ctx, name)
+
+    def inst(self, rule, key, ok, detail, at=None, extra=None):
+        return self._ctx.inst(rule, key + self._tag, ok, detail, at, extra)
+
+    def ok(self, rule, key, detail, at=None, extra=None):
+        return self._ctx.inst(rule, key + self._tag, True, detail, at, extra)
+
+    def bad(self, rule, key, detail, at=None, extra=None):
+        return self._ctx.inst(rule, key + self._tag, False, detail, at, extra)
+
+
+def sibling_instances(b):
+    """Calls of the engine's own body that were inlined more than once with the rule dispatch inside (`run(materials ..)`,
+    `run(products ..)` instead of one loop over both lists): [(root block, instance id, call site)]."""
+    has_dispatch = set()
+    for blk in b.blocks:
+        if any(st["k"] == "assign" and st["rv"]["k"] == "discr" and (st["rv"].get("adt") or "").endswith("rule::ArtifactRule") for st in blk["stmts"]):
+            parts = (blk.get("inst") or "").split("/")
+            if len(parts) >= 2:
+                has_dispatch.add("/" + parts[1])
+    groups = {}
+    for x in b.fn.get("inlined", []):
+        if x["inst"].count("/") == 1 and x["inst"] in has_dispatch:
+            groups.setdefault(x["callee"], []).append((x["at_block"], x["inst"], x["site"]))
+    return [m for g in groups.values() if len(g) >= 2 for m in g]
+
+
 def run(ctx):
     fx = ctx.fx
     f = find_engine(ctx)
@@ -97,7 +131,20 @@ def run(ctx):
     wrappers = find_matchers(fx)
     MATCHERS.clear()
     MATCHERS.update(GLOB_MATCHERS | wrappers)
-    b = ctx.region(None, key=f["key"], ps=True)
+    b0 = ctx.region(None, key=f["key"], ps=True)
+    sib = sibling_instances(b0)
+    if not sib:
+        return run_on(ctx, f, b0, wrappers)
+    # the rule loop is instantiated once per list (materials, products): judge each instance on its own, with the sibling
+    # calls left un-inlined
+    for (blk, inst, site) in sorted(sib):
+        others = frozenset(x[0] for x in sib if x[0] != blk)
+        bv = ctx.region(None, key=f["key"], ps=True, skip_root_sites=others)
+        run_on(_Tagged(ctx, " [instance %s]" % inst.rsplit("@", 1)[0].lstrip("/") + "#%d" % (sorted(x[0] for x in sib).index(blk) + 1)), f, bv, wrappers)
+
+
+def run_on(ctx, f, b, wrappers):
+    fx = ctx.fx
     # every function / closure of the rule engine's module (for defaulting scans)
     mod = f["path"].rsplit("::", 1)[0] + "::"
     eng = [g for g in fx.doc["fns"] if g["path"].startswith(mod)]
